@@ -84,6 +84,6 @@ NOT_APPLICABLE = {
     'C16': 'set semantics of hand-written case splits over namespace constraints can only be decided by evaluating them over the '
            'enumerated domain (execution); shape rules are blind to the defect quoted in the property',
 }
-for _p in ( 'C08', 'C09', 'C10', 'C17', 'C18', 'C19', 'C20'):
+for _p in ('C09', 'C10'):
     NOT_APPLICABLE.setdefault(_p, PENDING)
 FIX_COMMITS = ['0d39fae', 'ee7fbf0', 'ec74ff3', '0116491', '72bb2c6', '4feb9ab', '7a4e62d']
